@@ -52,7 +52,10 @@ type c15rec struct {
 func c15Generate(r *rand.Rand) (*c15rec, error) {
 	L := 20 + r.Intn(41)
 	o := gen.LocOpt{L: L, MaxParts: 3, MaxDepth: 2, Sites: false, Ambiguous: false}
-	nf := r.Intn(8)
+	nf := 2 + r.Intn(6)
+	if r.Intn(10) == 0 {
+		nf = 0
+	}
 	var tab []gts.Feature
 	keys := []string{"gene", "CDS", "misc_feature"}
 	for i := 0; i < nf; i++ {
@@ -648,7 +651,7 @@ func clipS(s string, n int) string {
 func c15Locator(r *rand.Rand, rec *c15rec) string {
 	L := len(rec.bytes)
 	var x string
-	switch r.Intn(7) {
+	switch []int{0, 1, 2, 3, 3, 3, 4, 4, 4, 5, 6}[r.Intn(11)] {
 	case 0:
 		x = fmt.Sprint(1 + r.Intn(L))
 	case 1:
@@ -731,7 +734,7 @@ func (m c15) Run(c *fw.Ctx) {
 	}
 	cmds := []cf{{"delete", nil}, {"delete", []string{"-e"}}, {"insert", nil}, {"insert", []string{"-e"}}, {"infix", nil}, {"infix", []string{"-e"}}, {"split", nil}, {"rotate", nil}, {"extract", nil}, {"extract", []string{"-v"}}}
 	r := c.Rng
-	N := c.Pick(70, 2500)
+	N := c.Pick(250, 2500)
 	for it := 0; it < N; it++ {
 		c.NextOwn()
 		var rec *c15rec
